@@ -107,20 +107,32 @@ structure Dec where
   exp10 : Int
   deriving Repr, DecidableEq
 
+/-- Value of the exponent part `[eE] [+-]? digits` (0 when absent). -/
+def expValue (r : Bytes) : Int :=
+  match r with
+  | [] => 0
+  | [_] => 0
+  | _ :: s :: u =>
+    if s == 45 then -(bytesVal (u.takeWhile isDigit) : Int)
+    else if s == 43 then (bytesVal (u.takeWhile isDigit) : Int)
+    else (bytesVal ((s :: u).takeWhile isDigit) : Int)
+
+/-- Splits `(. digits)?` off: the fraction digits and what follows. -/
+def fracSplit (r : Bytes) : Bytes × Bytes :=
+  match r with
+  | [] => ([], [])
+  | c :: t => if c == 46 then (t.takeWhile isDigit, t.dropWhile isDigit) else ([], r)
+
+/-- Reads `digits (. digits)? ([eE] [+-]? digits)?` as coefficient and decimal exponent. -/
+def unsignedValue (b : Bytes) : Nat × Int :=
+  let ip := b.takeWhile isDigit
+  let fr := fracSplit (b.dropWhile isDigit)
+  (bytesVal (ip ++ fr.1), expValue fr.2 - fr.1.length)
+
 /-- Reads `-? digits (. digits)? ([eE] [+-]? digits)?`. -/
 def decimalValue (b : Bytes) : Dec :=
-  let neg := b.head? == some 45
-  let b1 := if neg then b.drop 1 else b
-  let ip := b1.takeWhile isDigit
-  let r1 := b1.dropWhile isDigit
-  let fp : Bytes := match r1 with | 46 :: t => t.takeWhile isDigit | _ => []
-  let r2 : Bytes := match r1 with | 46 :: t => t.dropWhile isDigit | _ => r1
-  let ex : Int := match r2 with
-    | _ :: 45 :: u => -(bytesVal (u.takeWhile isDigit) : Int)
-    | _ :: 43 :: u => (bytesVal (u.takeWhile isDigit) : Int)
-    | _ :: u => (bytesVal (u.takeWhile isDigit) : Int)
-    | [] => 0
-  ⟨neg, bytesVal (ip ++ fp), ex - fp.length⟩
+  if b.head? == some 45 then ⟨true, (unsignedValue (b.drop 1)).1, (unsignedValue (b.drop 1)).2⟩
+  else ⟨false, (unsignedValue b).1, (unsignedValue b).2⟩
 
 /-! ### integer literals -/
 
